@@ -182,7 +182,7 @@ func (c10) Generate(idx int, r *core.Rand, tier string) core.Script {
 			op.NonceSeed = w.Uint64()
 		case k == 4:
 			op.Kind = "SM2"
-			op.SM2Op = []string{"Verify", "ZA", "DerivePublic", "Sign", "CheckOnCurve", "VerifyBad"}[w.Intn(6)]
+			op.SM2Op = []string{"Verify", "ZA", "DerivePublic", "Sign", "CheckOnCurve", "VerifyBad", "ZaEntry"}[w.Intn(7)]
 			op.NonceSeed = w.Uint64()
 		default:
 			op.Kind = "Seal"
@@ -453,6 +453,10 @@ func (c10) Execute(sc core.Script, keep bool) *core.Result {
 					if op.Dst.Mode == "inplace" {
 						scratch = slackBuf(len(ct), len(ct)+op.Dst.Spare)
 						copy(scratch, ct)
+						full := scratch[:cap(scratch)]
+						for j := len(ct); j < len(full); j++ {
+							full[j] = byte(0x3C ^ j)
+						}
 						out, err = a.Open(scratch[:0], nonce, scratch, aad)
 					} else {
 						dst = mkDst(op.Dst)
@@ -479,6 +483,22 @@ func (c10) Execute(sc core.Script, keep bool) *core.Result {
 				if op.Dst.Mode == "fresh" && !bytes.Equal(dst, prefix) {
 					report("input-modified", "Open", "dst-prefix", param, "bytes of dst[:len(dst)] changed")
 					return nil, nil
+				}
+				if op.Dst.Mode == "inplace" {
+					// the destination overlaps the ciphertext exactly on its first len(plaintext)
+					// bytes; the received tag behind it, and the memory behind the ciphertext,
+					// are not output
+					if needed <= len(ct) && !bytes.Equal(scratch[needed:len(ct)], ct[needed:]) {
+						report("input-modified", "Open", "ciphertext-tag", param, fmt.Sprintf("in-place Open changed the tag bytes behind the plaintext: %x -> %x", ct[needed:], scratch[needed:len(ct)]))
+						return nil, nil
+					}
+					full := scratch[:cap(scratch)]
+					for j := len(ct); j < len(full); j++ {
+						if full[j] != byte(0x3C^j) {
+							report("input-modified", "Open", "ciphertext-spare-capacity", param, fmt.Sprintf("in-place Open wrote %d byte(s) behind the ciphertext", j-len(ct)+1))
+							return nil, nil
+						}
+					}
 				}
 				checkPool("Open", exempt, param)
 				return out, err
@@ -631,6 +651,17 @@ func c10SM2(op c10Op, i int, pl *pool, log *core.Log, report func(class, op, rol
 			log.Add("op%d DerivePublic %s", i, core.Hex8(x1))
 			if !bytes.Equal(x1, x2) || !bytes.Equal(y1, y2) {
 				report("not-repeatable", name, "private-key", "inputs", "second DerivePublic differs")
+			}
+		case "ZaEntry": // the za-level entry points, with za, msg, r, s as separate pooled buffers
+			za := put("za", "za", r.Bytes(32))
+			ok1, _ := sm2.VerifyZa(px, py, za, msg, pr, ps)
+			ok2, _ := sm2.VerifyZa(px, py, za, msg, pr, ps)
+			c := rng.Content{TailSeed: op.NonceSeed}
+			r1, s1, _ := sm2.SignZa(rng.New(c, nil, nil), pPriv, za, msg)
+			r2, s2, _ := sm2.SignZa(rng.New(c, nil, nil), pPriv, za, msg)
+			log.Add("op%d VerifyZa %v %v SignZa %s", i, ok1, ok2, core.Hex8(r1))
+			if ok1 != ok2 || !bytes.Equal(r1, r2) || !bytes.Equal(s1, s2) {
+				report("not-repeatable", name, "za", "inputs", "second SignZa/VerifyZa on the same buffers differs")
 			}
 		case "CheckOnCurve", "VerifyBad":
 			// key material as it arrives from a faulty wire: coordinates >= p, off-curve
